@@ -957,11 +957,62 @@ def check_order_free(ctx, quals=(f"{EM}.EmulsionTimeCourse.get_emulsion", f"{EM}
                    f"`{U(bad[0])[:60] if bad else ''}` presupposes sorted members: for a collection whose times are not monotonic (explicit out-of-order times, re-glued slices) the query no longer equals its definition over the members")
 
 
+def _eval_radius_filter(t, radius_of, params):
+    """value of the member filter ``t`` of Emulsion.copy for a concrete radius and concrete parameter values (IEEE semantics:
+    every ordered comparison with NaN is False); None when a construct is not understood"""
+    import math
+
+    def ev(n):
+        if isinstance(n, ast.Constant) and isinstance(n.value, (int, float, bool)):
+            return n.value
+        if isinstance(n, ast.Name) and n.id in params:
+            return params[n.id]
+        if isinstance(n, ast.Attribute) and n.attr == "radius":
+            return radius_of
+        if isinstance(n, ast.UnaryOp) and isinstance(n.op, ast.Not):
+            v = ev(n.operand)
+            return None if v is None else (not v)
+        if isinstance(n, ast.UnaryOp) and isinstance(n.op, ast.USub):
+            v = ev(n.operand)
+            return None if v is None else -v
+        if isinstance(n, ast.BoolOp):
+            vs = [ev(v) for v in n.values]
+            if any(v is None for v in vs):
+                return None
+            return all(vs) if isinstance(n.op, ast.And) else any(vs)
+        if isinstance(n, ast.Call) and (dotted(n.func) or "").split(".")[-1] in ("isnan", "isfinite") and len(n.args) == 1:
+            v = ev(n.args[0])
+            if v is None:
+                return None
+            return math.isnan(v) if (dotted(n.func) or "").endswith("isnan") else math.isfinite(v)
+        if isinstance(n, ast.Call) and (dotted(n.func) or "") in ("float", "bool") and len(n.args) == 1:
+            return ev(n.args[0])
+        if isinstance(n, ast.Compare):
+            left = ev(n.left)
+            res = True
+            for op, c in zip(n.ops, n.comparators):
+                right = ev(c)
+                if left is None or right is None:
+                    return None
+                f = {ast.Gt: lambda a, b: a > b, ast.GtE: lambda a, b: a >= b, ast.Lt: lambda a, b: a < b, ast.LtE: lambda a, b: a <= b,
+                     ast.Eq: lambda a, b: a == b, ast.NotEq: lambda a, b: a != b}.get(type(op))
+                if f is None:
+                    return None
+                res = res and f(left, right)
+                left = right
+            return res
+        return None
+
+    return ev(t)
+
+
 def check_copy_total(ctx, rule="COPYALL"):
     """Emulsion.copy() with its defaults keeps every member: each filter on the way compares
     a member quantity with a defaulted parameter, and the default must make the filter vacuous
-    for all radii ≥ 0 (readers of time courses and EmulsionTimeCourse.append copy frames with
-    the defaults; a zero-radius droplet must survive)."""
+    for every radius a droplet can hold — all radii ≥ 0 and NaN, which the constructor and the radius setter accept
+    (`value < 0` is False for NaN) and the dataset writers store.  Readers of time courses and EmulsionTimeCourse.append
+    copy frames with the defaults; a zero-radius droplet and a droplet whose radius is not a number must survive.
+    The filter is evaluated as a truth table over concrete radii (IEEE comparison semantics), not by its spelling."""
     m = ctx.model
     fi = m.func(f"{EM}.Emulsion.copy")
     fv = view(m, fi)
@@ -977,43 +1028,48 @@ def check_copy_total(ctx, rule="COPYALL"):
         return
     verdict, where, msg = True, None, ""
     for holder, t in tests:
-        cp = compare_parts(t) if isinstance(t, ast.Compare) else None
-        if cp is None:
+        t = fv.expand(t) if hasattr(fv, "expand") else t
+        used = [p for p in fi.params if p in names_in(t)]
+        params = {}
+        for p in used:
+            d = fi.default_of(p)
+            val = None
+            if isinstance(d, ast.Constant) and isinstance(d.value, (int, float)):
+                val = d.value
+            elif isinstance(d, ast.UnaryOp) and isinstance(d.op, ast.USub) and isinstance(d.operand, ast.Constant):
+                val = -d.operand.value
+            elif d is not None and U(d) in ("-np.inf", "-math.inf", "float('-inf')"):
+                val = float("-inf")
+            if val is None:
+                verdict, where, msg = None, t, f"default of `{p}` is not a number"
+                break
+            params[p] = val
+        if verdict is None:
+            break
+        if not used:
             verdict, where, msg = None, t, f"filter `{U(t)[:50]}` not understood"
             break
-        l, op, r = cp
-        if U(r) in fi.params and U(l).endswith(".radius"):
-            p, strict_keep = U(r), isinstance(op, ast.Gt)
-            keep_ops = (ast.Gt, ast.GtE)
-        elif U(l) in fi.params and U(r).endswith(".radius"):
-            p, strict_keep = U(l), isinstance(op, ast.Lt)
-            keep_ops = (ast.Lt, ast.LtE)
-        else:
-            verdict, where, msg = None, t, f"filter `{U(t)[:50]}` not understood"
+        inverted = isinstance(holder, ast.If) and any(isinstance(x, ast.Continue) for x in ast.walk(holder))
+        table = {}
+        for label, r in (("0", 0.0), ("a positive number", 1.5), ("NaN", float("nan"))):
+            v = _eval_radius_filter(t, r, params)
+            if v is None:
+                verdict, where, msg = None, t, f"filter `{U(t)[:50]}` not understood"
+                break
+            table[label] = (not v) if inverted else bool(v)
+        if verdict is None:
             break
-        if not isinstance(op, keep_ops):
-            verdict, where, msg = None, t, f"filter `{U(t)[:50]}` not understood"
-            break
-        d = fi.default_of(p)
-        val = None
-        if isinstance(d, ast.Constant) and isinstance(d.value, (int, float)):
-            val = d.value
-        elif isinstance(d, ast.UnaryOp) and isinstance(d.op, ast.USub) and isinstance(d.operand, ast.Constant):
-            val = -d.operand.value
-        elif d is not None and U(d) in ("-np.inf", "-math.inf", "float('-inf')"):
-            val = float("-inf")
-        if val is None:
-            verdict, where, msg = None, t, f"default of `{p}` is not a number"
-            break
-        vac = val < 0 if strict_keep else val <= 0
-        if not vac:
+        dropped = [k for k, kept in table.items() if not kept]
+        if dropped:
             verdict, where = False, t
-            msg = (f"Emulsion.copy() keeps a member only if `{U(t)}` and `{p}` defaults to {val}: a droplet of radius 0 is dropped by a plain copy "
-                   "(EmulsionTimeCourse.append and the file reader copy frames with the defaults, so a stored frame loses its vanished droplets)")
+            dv = ", ".join(f"{p}={v}" for p, v in params.items())
+            msg = (f"Emulsion.copy() keeps a member only if `{U(t)}` and the default is {dv}: a droplet of radius {' / '.join(dropped)} is dropped by a plain copy "
+                   "(EmulsionTimeCourse.append and the file reader copy frames with the defaults, so a stored frame loses such droplets: "
+                   "the constructor accepts them, the writer stores their rows, and the file reads back with fewer droplets)")
             break
         where = t
     if verdict is True:
-        ctx.hold(rule, site, (fi, where), "with the default bound every member (radius ≥ 0) passes the filter of Emulsion.copy")
+        ctx.hold(rule, site, (fi, where), "with the default bound every member (radius ≥ 0 or NaN) passes the filter of Emulsion.copy")
     elif verdict is False:
         ctx.violate(rule, site, (fi, where), msg)
     else:
